@@ -50,13 +50,19 @@ ASSUMPTIONS = [
 SIG_A = "F-C07a-publish-before-connect"
 SIG_B = "F-C07b-deque-mutated-in-reconnect"
 SIG_C = "F-C07c-loop-stop-join-none"
-EXPECTED_OPEN = (SIG_A, SIG_B, SIG_C)
+SIG_D = "F-C07d-qos0-dropped-unmarked-by-reconnect"
+SIG_E = "F-C07e-lost-qos0-reported-success"
+EXPECTED_OPEN = (SIG_A, SIG_B, SIG_C, SIG_D, SIG_E)
+LOCK_IDS = {"_mid_generate_mutex": 0, "_out_message_mutex": 1, "_in_callback_mutex": 2, "_callback_mutex": 3,
+            "_msgtime_mutex": 4, "_in_message_mutex": 5, "_reconnect_delay_mutex": 6, "info_condition": 7}
 ROOT = os.path.dirname(os.path.dirname(os.path.abspath(__file__)))
 CORPUS = os.path.join(ROOT, "corpus", "C07")
 
 HOOKED = frozenset({"_send_publish", "_mid_generate", "_packet_queue"})
 LOCK_ATTRS = ["_in_callback_mutex", "_callback_mutex", "_msgtime_mutex", "_out_message_mutex", "_in_message_mutex",
               "_reconnect_delay_mutex", "_mid_generate_mutex"]
+# lockset check: every access of the message store made while another thread is alive
+GUARDED = {"_out_messages": "_out_message_mutex", "_inflight_messages": "_out_message_mutex"}
 WORKERS = max(1, min(8, (os.cpu_count() or 2) // 2))
 
 
@@ -362,6 +368,7 @@ def run_once(cfg, strategy, visible=None, audit=False, keep_events=True):
     sch = S.Scheduler(strategy, visible_attrs=va, visible_res=vr, audit=audit, keep_events=keep_events,
                       max_idle_timeouts=cfg.get("max_idle", 6))
     sch.release_points = not (isinstance(strategy, S.DFS) or cfg.get("no_release_points"))
+    sch.guarded = GUARDED
     run = Run(cfg)
     with S.Patched(sch):
         c, broker = build(cfg, sch, run)
@@ -431,7 +438,19 @@ def judge(run):
                     continue
                 appear[(i, j)].append((sk.id, pos, (first >> 3) & 1, q))
     # scheduler-level failures
-    if sch.failure is not None and not crashed:
+    dropped = []
+    if scen == "reconnect":
+        queued_now = {p_["mid"] for p_ in collections.deque.__iter__(c._out_packet)}
+        for i, rs in run.results.items():
+            for (j, q, info, rc) in rs:
+                if info is not None and q == 0 and rc == 0 and not info._published and (i, j) not in appear \
+                        and info.mid not in queued_now:
+                    dropped.append("P%d/%d mid %d" % (i + 1, j, info.mid))
+    if dropped:
+        add(SIG_D, "QoS 0 message(s) %s: publish() returned success, the packet is neither on any wire nor queued, "
+                   "and it was never marked lost (rc stays 0, is_published() stays False, wait_for_publish() would block "
+                   "for ever): appended between reconnect()'s marking loop and _out_packet.clear()" % ", ".join(dropped))
+    if sch.failure is not None and not crashed and not (dropped and sch.failure[0] in ("stall", "deadlock")):
         kind, detail = sch.failure
         if kind == "deadlock":
             add("deadlock", "no runnable thread while work remains: %s" % (detail,))
@@ -460,14 +479,22 @@ def judge(run):
             add("duplicate-packet", "%s written %s times on one connection without DUP" % (name, dict(per_conn)))
         if q == 0:
             if rc != 0:
-                if ap:
+                # publish() overlapping disconnect() may see the loop thread gone and the socket closed after its
+                # packet was already written (rc = NO_CONN for a packet that went out): tolerated, counted
+                if ap and (scen != "shutdown" or (i, j) in run.returned_before_disc):
                     add("sent-after-error", "%s returned rc=%d but was written" % (name, rc))
+                elif ap:
+                    run.rc_mismatch = getattr(run, "rc_mismatch", 0) + 1
                 continue
             if len(ap) > 1:
                 add("duplicate-packet", "%s written %d times" % (name, len(ap)))
             if not ap and complete:
                 if scen in ("steady", "async") or (scen == "shutdown" and (i, j) in run.returned_before_disc):
                     add("lost-packet", "%s returned success and never reached the wire" % name)
+                elif scen == "reconnect" and info._published and info.rc == 0:
+                    add(SIG_E, "%s was discarded by reconnect() (marked lost: rc=MQTT_ERR_CONN_LOST, published) but "
+                               "publish() then overwrote info.rc with MQTT_ERR_SUCCESS: is_published() is True and rc is 0 "
+                               "for a message that never reached the wire" % name)
                 elif scen == "reconnect" and not (info._published and info.rc == mqtt.MQTT_ERR_CONN_LOST):
                     add("qos0-dropped-silently", "%s never reached the wire and was not marked lost (rc=%s published=%s)"
                         % (name, int(info.rc), info._published))
@@ -503,6 +530,10 @@ def judge(run):
         if not 0 <= c._inflight_messages <= len(c._out_messages):
             add("inflight-accounting", "_inflight_messages=%d with %d stored messages" % (
                 c._inflight_messages, len(c._out_messages)))
+    for (attr, fn, kind) in sorted(sch.unlocked):
+        if kind == "write":
+            add("unlocked-write:%s@%s" % (attr, fn), "%s is written in %s() without holding %s while other threads "
+                "are alive" % (attr, fn, GUARDED[attr]))
     seen, out = set(), []
     for x in v:
         if x["signature"] not in seen:
@@ -658,21 +689,31 @@ class Acc:
         self.max_decisions = 0
         self.notes = set()
         self.lock_edges = set()
+        self.unlocked = set()
         self.complete = True
         self.secs = 0.0
+
+    def add_viol(self, x):
+        """keep, per signature, the violating case with the shortest schedule (deterministic)"""
+        k = x["signature"]
+        old = self.viol.get(k)
+        key = lambda y: (len(y["case"]["choices"]), json.dumps(y["case"], sort_keys=True))
+        if old is None or key(x) < key(old):
+            self.viol[k] = x
 
     def merge(self, o):
         self.runs += o.runs
         self.validated += o.validated
         self.nontrivial |= o.nontrivial
         for k, x in o.viol.items():
-            self.viol.setdefault(k, x)
+            self.add_viol(x)
         self.viol_count.update(o.viol_count)
         self.disagree += o.disagree[:3]
         self.pre_hist.update(o.pre_hist)
         self.max_decisions = max(self.max_decisions, o.max_decisions)
         self.notes |= o.notes
         self.lock_edges |= o.lock_edges
+        self.unlocked |= o.unlocked
         self.complete = self.complete and o.complete
         self.secs += o.secs
 
@@ -693,10 +734,13 @@ def record(acc, run, case, pending_model):
     if sch.preemptions > 0 and handed:
         acc.nontrivial.add(hashlib.sha1(repr(sch.choices).encode()).hexdigest()[:16])
     acc.lock_edges |= sch.lock_edges
+    acc.unlocked |= sch.unlocked
     for x in judge(run):
         acc.viol_count[x["signature"]] += 1
-        if x["signature"] not in acc.viol:
-            acc.viol[x["signature"]] = {"case": case, "what": x["what"], "signature": x["signature"]}
+        acc.add_viol({"case": case, "what": x["what"], "signature": x["signature"]})
+    if getattr(run, "rc_mismatch", 0):
+        acc.notes.add("publish() overlapping disconnect() returned MQTT_ERR_NO_CONN for a packet that was written "
+                      "(the loop thread wrote it, closed the socket and exited before publish() looked): tolerated")
     if is_q0_steady(run.cfg):
         mc = model_case(run)
         if mc is not None:
@@ -842,39 +886,30 @@ def run(ctx, out):
     pool = multiprocessing.get_context("fork").Pool(WORKERS) if WORKERS > 1 else None
     try:
         dfs_plans, sample_plans = plans(ctx)
-        viol = {}
-        counts = collections.Counter()
-        edges = set()
+        total = Acc()
         exhaustive_all = True
 
-        def absorb(a):
-            out.cases += a.runs
-            out.validated += a.validated
-            out.nontrivial |= a.nontrivial
-            out.disagreements.extend(a.disagree)
-            counts.update(a.viol_count)
-            edges.update(a.lock_edges)
-            for s_, x in a.viol.items():
-                viol.setdefault(s_, x)
-
-        # corpus first
+        # corpus first: the stored witnesses of the findings
         if os.path.isdir(CORPUS):
             for name in sorted(os.listdir(CORPUS)):
                 if name.endswith(".json"):
                     case = json.load(open(os.path.join(CORPUS, name)))["case"]
-                    _, vs = replay_case(case)
-                    out.cases += 1
+                    r_, vs = replay_case(case)
+                    total.runs += 1
                     out.stat("corpus")
                     for x in vs:
-                        counts[x["signature"]] += 1
-                        viol.setdefault(x["signature"], {"case": case, "what": x["what"], "signature": x["signature"]})
-        t_dfs_end = _time.time() + (deadline - _time.time()) * 0.65
+                        total.viol_count[x["signature"]] += 1
+                        total.add_viol({"case": case, "what": x["what"], "signature": x["signature"]})
+        t_dfs_end = _time.time() + (deadline - _time.time()) * 0.7
         for k, (name, cfg, bound) in enumerate(dfs_plans):
             left = len(dfs_plans) - k
-            dl = _time.time() + max(3.0, (t_dfs_end - _time.time()) / left)
+            share = (t_dfs_end - _time.time()) / left
+            if k == 0:
+                share = max(share, (t_dfs_end - _time.time()) * 0.55)     # the headline configuration
+            dl = _time.time() + max(3.0, share)
             visible = learn_visible(cfg, ctx.seed, 18 if ctx.quick else 40)
             a = explore_dfs(cfg, visible, bound, pool, ctx.n(200000, 3000000), dl)
-            absorb(a)
+            total.merge(a)
             out.stat("dfs:" + name, a.runs)
             out.sample({"config": name, "cfg": cfg, "preemption_bound": bound, "schedules": a.runs,
                         "enumeration_complete": a.complete, "by_preemptions": dict(a.pre_hist),
@@ -897,16 +932,31 @@ def run(ctx, out):
         args = [j[2] for j in jobs]
         results = pool.imap(sample_job, args) if pool is not None else map(sample_job, args)
         for (name, kind, _), a in zip(jobs, results):
-            absorb(a)
+            total.merge(a)
             out.stat("%s:%s" % (kind, name), a.runs)
             if not a.complete:
                 out.notes.append("%s %s: sampling cut short by the time budget" % (kind, name))
+        out.cases += total.runs
+        out.validated += total.validated
+        out.nontrivial |= total.nontrivial
+        out.disagreements.extend(total.disagree[:5])
         out.exhaustive = exhaustive_all
-        for s_, n_ in sorted(counts.items()):
+        for s_, n_ in sorted(total.viol_count.items()):
             out.stat("violating-schedules:" + s_, n_)
-        out.stat("lock-order-edges-observed", len(edges))
-        out.sample({"lock_order_edges_observed(held->acquired)": sorted("%s->%s" % e for e in edges)}, limit=40)
-        out.violations += order_violations(list(viol.values()))
+        # lock order: every (held, acquired) pair observed must be in the relation proved acyclic (Conc/LockOrder.v)
+        rel = model.run_one("sched", 2, [])
+        model_edges = {(rel[i], rel[i + 1]) for i in range(0, len(rel), 2)}
+        seen_edges = sorted(total.lock_edges)
+        out.stat("lock-order-edges-observed", len(seen_edges))
+        out.sample({"lock_order_edges_observed(held->acquired)": ["%s->%s" % e for e in seen_edges],
+                    "model_relation": sorted(model_edges)}, limit=40)
+        for (h, l) in seen_edges:
+            if h not in LOCK_IDS or l not in LOCK_IDS or (LOCK_IDS[h], LOCK_IDS[l]) not in model_edges:
+                out.disagreements.append({"case": {"kind": "lock-order"}, "diff": ["observed lock-order edge %s -> %s is not "
+                                          "in the relation of Conc/LockOrder.v (client_edges)" % (h, l)]})
+        out.sample({"accesses_of_message_store_without__out_message_mutex": sorted("%s in %s (%s)" % u for u in total.unlocked)},
+                   limit=40)
+        out.violations += order_violations(list(total.viol.values()))
         out.notes.append("exploration, not proof: %d schedules executed on the real client in %.0f s with %d worker processes"
                          % (out.cases, _time.time() - t_start, WORKERS))
     finally:
